@@ -1,0 +1,29 @@
+//go:build verif
+
+// Contracts for package caching (compiled only with -tags=verif; checked by /verif/bin/govc).
+package caching
+
+//@ func (*TargetResultCache).Load(tc, ctx, changeHash) (r, err)
+//@   pure
+//@   ensures [nil_on_error] err != nil ==> r == nil
+//@   ensures [result_or_error] err == nil ==> r != nil
+//@   ghostset lastLoadKey := changeHash
+//@   ghostset lastLoadNil := r == nil
+//@   ghostset lastLoadOutputHash := ite(r == nil, "", r.OutputHash)
+
+//@ func (*TargetResultCache).Write(tc, ctx, targetResult) (err)
+//@   requires [outputs_stored_first] targetResult.complete || len(targetResult.Outputs) == 0
+//@   pure
+//@   ghostset cacheWrites := cacheWrites + 1
+//@   ghostset lastWrittenKey := targetResult.ChangeHash
+
+//@ func (*TaintCache).IsTainted(tc, ctx, targetLabel) (r, err)
+//@   pure
+//@   ghostset lastIsTainted := r
+
+//@ func (*TaintCache).Clear(tc, ctx, targetLabel) (err)
+//@   pure
+//@   ghostset taintClears := taintClears + 1
+
+//@ func (*TaintCache).Taint(tc, ctx, targetLabel) (err)
+//@   pure
